@@ -960,6 +960,22 @@ class Runner
     // -----------------------------------------------------------------------------------------------------------
     // monitors
     // -----------------------------------------------------------------------------------------------------------
+    // A const_iterator that denoted an element of ANOTHER vector (another block, address table, fixed sizes and stride)
+    // and is then assigned from a mutable iterator of slot s: the converting assignment must take over everything.
+    typename Vec::const_iterator rebound_const_iterator(int s, std::size_t i)
+    {
+        Vec& v = *vs[s].v;
+        for (int t = 0; t < NSLOT; ++t)
+            if (t != s && usable(t))
+            {
+                typename Vec::const_iterator it = static_cast<const Vec&>(*vs[t].v).begin();
+                it = v.begin() + static_cast<std::ptrdiff_t>(i);
+                st.label("const_iterator_rebound_from_other_vector");
+                return it;
+            }
+        return typename Vec::const_iterator(v.begin() + static_cast<std::ptrdiff_t>(i));
+    }
+
     void monitor_values(int s)
     {
         if (!usable(s)) return;
@@ -988,6 +1004,12 @@ class Runner
             ++i;
         }
         VF_REQUIRE(i == n, "iteration_too_short", "iteration yields fewer elements than size()");
+        for (std::size_t k = 0; k < n; k += (n > 2 ? n - 1 : 1))
+        {
+            const auto rit = rebound_const_iterator(s, k);
+            MElem a = read_ref(*rit);
+            VF_REQUIRE(matches(a, m.el[k]), "value_mismatch_rebound_iterator", "a const_iterator assigned from begin()+" + std::to_string(k) + " (it denoted another vector before) shows " + show(a) + " model " + show(m.el[k]));
+        }
         i = 0;
         for (auto it = cv.begin(); it != cv.end(); ++it, ++i)
         {
@@ -1058,7 +1080,7 @@ class Runner
         VF_REQUIRE(reinterpret_cast<std::uintptr_t>(de) <= hi && reinterpret_cast<std::uintptr_t>(db) >= lo, "data_range_exceeds_block", "data range leaves the block");
         for (std::size_t i = 0; i < v.size(); ++i)
         {
-            auto ex = extents(v[i]);
+            auto ex = (i % 2) ? extents(*rebound_const_iterator(s, i)) : extents(v[i]);
             for (std::size_t k = 0; k < N; ++k)
             {
                 VF_REQUIRE(ex[k].begin >= lo && ex[k].end() <= hi, "object_outside_block",
@@ -1127,7 +1149,7 @@ class Runner
                 // the const-qualified overloads of operator*, operator-> and data() of an iterator object, and a
                 // const_iterator of the const vector, denote the same objects as operator[]
                 const auto cit = it;
-                const typename Vec::const_iterator ccit = static_cast<const Vec&>(v).begin() + static_cast<std::ptrdiff_t>(i);
+                const typename Vec::const_iterator ccit = (i % 2) ? rebound_const_iterator(s, i) : static_cast<const Vec&>(v).begin() + static_cast<std::ptrdiff_t>(i);
                 auto exc = extents(*cit);
                 auto excc = extents(*ccit);
                 bool same = reinterpret_cast<std::uintptr_t>(cit.data()) == rb && reinterpret_cast<std::uintptr_t>(ccit.data()) == rb &&
@@ -1750,14 +1772,36 @@ class Runner
             const int scratch = (s + 1) % NSLOT == s ? (s + 2) % NSLOT : (s + 1) % NSLOT;
             int t = scratch;
             if (vs[t].m.alive && vs[t].m.unspecified) t = (s + 2) % NSLOT;
-            construct_slot(t, 2, 16, fixed_from(9), vs[s].m.arena);
+            // three ways of giving it a value, chosen by the case: stealing move assignment (equal allocator),
+            // move assignment from an unequal allocator (element-wise unless the allocator propagates or is always
+            // equal: re-uses or replaces whatever block the vector believes it has) and copy assignment
+            unsigned how = (prog.junk + static_cast<unsigned>(s)) % 3;
+            if (how == 2 && !(LI::ALL_COPYABLE && LI::ALL_COPY_ASSIGNABLE)) how = 1;
+            const int old_arena = vs[s].m.arena;
+            const int src_arena = how == 1 ? (old_arena + 1) % 3 : old_arena;
+            construct_slot(t, 2, 16, fixed_from(9), src_arena);
             MElem e = make_model_elem(vs[t].m, 5, 1, false, remaining_budget(vs[t].m));
             do_emplace_model(*vs[t].v, e, 0);
             vs[t].m.el.push_back(e);
-            *vs[s].v = std::move(*vs[t].v);
-            vs[s].m = vs[t].m;
-            vs[t].m.moved_from = true;
-            vs[t].m.el.clear();
+            if (how == 2)
+            {
+                if constexpr (LI::ALL_COPYABLE && LI::ALL_COPY_ASSIGNABLE) *vs[s].v = static_cast<const Vec&>(*vs[t].v);
+                vs[s].m = vs[t].m;
+                vs[s].m.arena = K::pocca ? src_arena : old_arena;
+                st.label("after_fault_copy_assigned");
+            }
+            else
+            {
+                *vs[s].v = std::move(*vs[t].v);
+                vs[s].m = vs[t].m;
+                vs[s].m.arena = K::pocma ? src_arena : old_arena;
+                vs[t].m.moved_from = true;
+                vs[t].m.el.clear();
+                st.label(how == 1 ? "after_fault_move_assigned_unequal" : "after_fault_move_assigned");
+            }
+            vs[s].m.cap = vs[s].v->capacity();
+            vs[s].m.budget_known = false;
+            vs[s].m.exact = false;
             monitor_values(s);
         }
     }
